@@ -138,6 +138,10 @@ class Interp:
             if not self.run.decide(c, what):
                 self.raise_(exc, node)
         else:
+            key = c.get_id()
+            if key in self.run.safe_seen:
+                return
+            self.run.safe_seen.add(key)
             self.run.oblige(f'no-{exc}:{what}@{getattr(node, "lineno", "?")}', c, kind='safety', lineno=getattr(node, 'lineno', None))
             self.run.assume(c)
 
@@ -333,6 +337,11 @@ class Interp:
             if fr is not None and fr.catches('AttributeError') and name in self.eng.maybe_missing_fields:
                 if self.run.decide(sym.is_undef(val), f'missing-{name}'):
                     self.raise_('AttributeError', node)
+            fh = self.eng.field_types.get(name)
+            if fh is not None:
+                # type invariant of the attribute (established by every constructor; listed in the evidence)
+                self.run.assume(z3.And(sym.is_ref(val), self.heap.cls(sym.r_of(val)) == self.eng.class_id(fh)))
+                return SV(val, hint=frozenset([fh]))
             return SV(val)
         return self.resolve_on_obj(v, name, fr, node)
 
@@ -349,6 +358,21 @@ class Interp:
                 k = None
             groups.setdefault(k, []).append(c)
             found[k] = r
+        if len(groups) > 1 and all(isinstance(found[g], tuple) and found[g][0] == 'const' for g in groups):
+            # class-level constants that differ between classes: one ite over the class id, no fork
+            vals = []
+            for g in groups:
+                cv = self.eng.class_const(self, found[g][1], name, found[g][2], node)
+                if not isinstance(cv, SV):
+                    vals = None
+                    break
+                vals.append((groups[g], cv.t))
+            if vals is not None:
+                cls = self.heap.cls(sym.r_of(v.t))
+                t = vals[-1][1]
+                for cl, vt in vals[:-1]:
+                    t = z3.If(z3.Or([cls == self.eng.class_id(c) for c in cl]), vt, t)
+                return SV(sym.simp(t))
         k = self.narrow(v, groups, f'dispatch-{name}')
         r = found[k]
         if r is None:
